@@ -414,8 +414,10 @@ class XPathToken(Token[ta.XPathTokenType]):
                 return cls(value)
             elif isinstance(value, UntypedAtomic):
                 try:
+                    if isinstance(cls, type) and issubclass(cls, (Duration, AbstractDateTime)):
+                        return cls.make(value)
                     return cls(value)
-                except (TypeError, ValueError):
+                except (TypeError, ValueError, ArithmeticError):
                     pass
 
             if value == []:
